@@ -971,6 +971,10 @@ func Generate(t *rapid.T, p Profile) Plan {
 		if p.CrashGen != nil && rapid.IntRange(0, 2).Draw(t, "holdman") == 0 {
 			sp.HoldManifest = rapid.IntRange(1, 5).Draw(t, "holdmank")
 		}
+		if rapid.IntRange(0, 2).Draw(t, "holdcreate") == 0 {
+			sp.HoldCreate = rapid.SampledFrom([]string{"sst", "blob", "any"}).Draw(t, "holdcreatecls")
+			sp.HoldCreateK = rapid.IntRange(1, 4).Draw(t, "holdcreatek")
+		}
 	}
 	n := rapid.IntRange(p.MinSteps, p.MaxSteps).Draw(t, "nsteps")
 	for i := 0; i < n; i++ {
@@ -1170,6 +1174,12 @@ func (g *gen) emit(label, kind string) {
 	case "excise":
 		g.preStructural()
 		s.A, s.B = g.span(label + "ex")
+		if rapid.IntRange(0, 7).Draw(g.t, label+"exall") == 0 {
+			// (nearly) everything: every table - and with value separation every
+			// blob file - loses its last reference at once, also those a job that
+			// is in flight was going to rewrite
+			s.A, s.B = Prefixes[0], Prefixes[len(Prefixes)-1]
+		}
 		n := g.st.clone()
 		n.exciseSpan(s.A, s.B)
 		g.st = n
